@@ -53,4 +53,76 @@ int poll(struct pollfd *fds, nfds_t nfds, int timeout)
 }
 #endif /* XV_DNSTC_DNS */
 
+/* ==================================================================================================================== */
+#ifdef XV_DNSTC_TC
+#include <sys/socket.h>
+#include <sys/un.h>
+#include <unistd.h>
+#include <netinet/in.h>
+/* env/fd.h (descriptor table, socket/close/connect/bind/... models) is reused UNCHANGED; its connect() and bind() are
+ * compiled under other names and wrapped below: the fd.h model decides the outcome and does the C05/C08 checks, the
+ * wrapper adds the attempt log. */
+#define connect xv_fdh_connect
+#define bind xv_fdh_bind
+#include "env/fd.h"
+#undef connect
+#undef bind
+
+#define XT ((struct track *)xv_trk)
+
+/* every event that ends an attempt forgets what was prepared for it */
+#define XV_ATTEMPT_ENDS { xv_pre_eff_fd = -1; xv_pre_bind_fd = -1; }
+/* a failed step: errno of the last failed attempt, and the row of the tracked address */
+#define XV_STEP_FAILED { xv_fail_n++; xv_fail_errno = xv_errno; \
+                         if (XT->ip_idx == xv_ai) { xv_att_failed++; xv_att_errno = xv_errno; } }
+
+#define XV_ATT_ASSIGNS xv_att_begun, xv_att_failed, xv_att_errno, xv_att_conn, xv_att_conn_rc, xv_att_conn_errno, xv_att_conn_fd, xv_att_conn_src
+#define XV_FAIL_ASSIGNS xv_fail_n, xv_fail_errno
+#define XV_PRE_ASSIGNS xv_pre_eff_fd, xv_pre_bind_fd
+#define XV_BINDW_ASSIGNS XV_BIND_ASSIGNS, XV_FAIL_ASSIGNS, XV_PRE_ASSIGNS, xv_att_failed, xv_att_errno
+#define XV_CONNW_ASSIGNS XV_CONNECT_ASSIGNS, XV_FAIL_ASSIGNS, XV_PRE_ASSIGNS, XV_ATT_ASSIGNS, xv_conn_n, xv_conn_idx, xv_conn_fd, xv_conn_rc, xv_conn_errno, \
+                         xv_disc_n, xv_disc_fd, xv_unprepared, xv_unbound, xv_wrong_addr, xv_unregistered
+
+/* TRUSTED(kernel) bind(2) = env/fd.h's model + log: a successful bind of the address tp_ip_to_sockaddr last built from
+ * (track->local_ip, track->local_port) marks the descriptor as "bound to the configured local address" */
+int bind(int fd, const struct sockaddr *addr, socklen_t len)
+{
+    int rc = xv_fdh_bind(fd, addr, len);
+    if (rc < 0) {
+        XV_STEP_FAILED
+        XV_ATTEMPT_ENDS
+    } else
+        xv_pre_bind_fd = ((const void *)addr == xv_sa_dst && XT->local_ip != NULL && xv_sa_src == (const void *)XT->local_ip &&
+                          xv_sa_port == XT->local_port && len == sizeof(struct sockaddr_storage)) ? fd : -1;
+    return rc;
+}
+
+/* TRUSTED(kernel) connect(2) = env/fd.h's model + log.  An address of family AF_UNSPEC dissolves the association
+ * ("disconnect"); anything else is a connection ATTEMPT on the address the track currently points at. */
+int connect(int fd, const struct sockaddr *addr, socklen_t len)
+{
+    __CPROVER_assert(len >= sizeof(sa_family_t) && __CPROVER_r_ok(addr, len), "connect() address readable");
+    if (addr->sa_family == AF_UNSPEC) {
+        xv_disc_n++; xv_disc_fd = fd;
+        return xv_fdh_connect(fd, addr, len);
+    }
+    if (xv_pre_eff_fd != fd) xv_unprepared++;
+    if (xv_pre_bind_fd != fd) xv_unbound++;
+    if (!((const void *)addr == xv_sa_dst && XT->ip_idx >= 0 && XT->ip_idx < XT->num_remote_ips &&
+          xv_sa_src == (const void *)&XT->remote_ips[XT->ip_idx] && xv_sa_port == XT->remote_port && len == sizeof(struct sockaddr_storage)))
+        xv_wrong_addr++;
+    if (!(XT->fd_reg_id >= 0 && XT->fd_reg_id == xv_reg_id && xv_reg_fd == fd && xv_reg_event == EPOLLOUT))
+        xv_unregistered++;
+    XV_ATTEMPT_ENDS
+    int rc = xv_fdh_connect(fd, addr, len);
+    xv_conn_n++; xv_conn_idx = XT->ip_idx; xv_conn_fd = fd; xv_conn_rc = rc; xv_conn_errno = rc < 0 ? xv_errno : 0;
+    if (XT->ip_idx == xv_ai) {
+        xv_att_conn++; xv_att_conn_rc = rc; xv_att_conn_errno = xv_conn_errno; xv_att_conn_fd = fd; xv_att_conn_src = xv_sa_src;
+    }
+    if (rc < 0 && xv_errno != EINPROGRESS)
+        XV_STEP_FAILED
+    return rc;
+}
+#endif /* XV_DNSTC_TC */
+
 #endif
